@@ -1349,9 +1349,13 @@ def register_all(M):
         return x if x.variant == "Some" else c.call_callable(a[1], [])
     def opt_unwrap_or_default(c, m, a):
         o = a[0]
+        if isinstance(o, SymOpt):
+            o = some(o.fields[0]) if c.decide(o.present.v if o.present.concrete else o.present.z()) else none()
         if o.variant == "Some":
             return o.fields[0]
         t = m.group("t")
+        if t.endswith("Duration"):
+            return Agg("Duration", None, [mk_int(0, "nat")])
         if t.startswith("String"):
             return StringBuf()
         if t.startswith("Vec"):
